@@ -17,7 +17,7 @@ ASSUMPTIONS = [
     "event-loop model contracts/looplib.py (trusted): the delayed answer is the timer armed by call_later, the immediate one the callback queued by call_soon",
     "an instance that is stopped or not yet started is not ready (_can_answer_offers false): established by ServiceInstance.start/stop, see C10",
 ]
-BOUNDED = ["one to three service instances per announcer -- the property's own quantifier -- with ids, versions, options, readiness symbolic"]
-EXPLANATION = "request ids/versions incl. every wildcard combination, channel, delay window, instance descriptions and readiness are symbolic; the number of instances is bounded in shape (bounded_stand_ins)"
+BOUNDED = []
+EXPLANATION = "request ids/versions incl. every wildcard combination, channel, delay window, instance descriptions and readiness are symbolic; one to three instances are enumerated (the property's own quantifier)"
 HARNESSES = [SCFG.ob_matches_find_refines, SCFG.ob_create_offer_entry_refines] + SA.FIND_OBLIGATIONS + [SS.ob_sd_message_dispatch, C10.ob_instance_start_stop, C10.ob_offer_task]
 EXPECT_COVERS = {"ob_handle_findservice": ["multicast", "unicast", "both", "nobody"], "ob_sd_message_dispatch": ["find"]}
